@@ -111,11 +111,20 @@ var allSS = []string{"Compare", "EqualFold", "Index", "Contains", "LastIndex", "
 	"TrimPrefix", "TrimSuffix", "CutPrefix", "CutSuffix", "Count", "Cut", "IndexAny", "LastIndexAny", "ContainsAny"}
 
 func (x *Ctx) pairsFor(fns []string, streams []int, n int) {
+	hasIndex := false
+	for _, fn := range fns {
+		if fn == "Index" {
+			hasIndex = true
+		}
+	}
 	for i := 0; i < n; i++ {
 		st := streams[i%len(streams)]
 		s, t := x.g.pair(st)
 		for _, fn := range fns {
 			x.run(fn, s, t, 0)
+		}
+		if hasIndex && i%8 == 0 {
+			x.internalIndex(s, t)
 		}
 	}
 }
@@ -279,6 +288,8 @@ func init() {
 
 	props["C01"] = func(x *Ctx) {
 		fns := []string{"Index", "Contains"}
+		x.limit = x.limit * 5 / 2
+		x.pairsFor(fns, valid, 15000*x.scale)
 		x.ratioSweep(fns, false)
 		x.thresholdSweep(fns, streamValid, 80, 40)
 		x.pairsFor(fns, valid, 120000*x.scale)
